@@ -367,7 +367,7 @@ PROPERTIES = {
     "C14": {
         "level": "exploration",
         "rule": ("1..2 device-under-test modules with stacks of 0..4 elements from {pass, tag (sets a bit in the message), consume-if(id % m == r), chatty (sends a message "
-                 "from every hook)}, supplied globally through set_stack, per module through Module::stack (element by element or as one appended stack), or both; 3..42 self messages at distinct instants, a task "
+                 "from every hook)}, supplied globally through set_stack, per module through Module::stack (element by element or as one appended stack), or both; a sixth of the modules ignores the base stack it is handed and returns its own elements only (exactly those are then installed); 3..42 self messages at distinct instants, a task "
                  "with timer wake-ups, 1..2 start stages, optionally shutdown-and-restart (restart stages), tear-down (a sixth of the modules reports an error from at_sim_end, which run() must return); handlers optionally send two messages; a sixth of the modules (catching stereotype) panics in the handler of one message: that event is closed like any other and the module is inert afterwards. All hooks, "
                  "handlers, task wake-ups and the receptions of the messages sent from hooks log into one sequence. Oracle = bracket grammar per module event: "
                  "event_start exactly once per element in stack order; incoming only after that element's start, in order, element i+1 sees exactly the tags "
@@ -384,9 +384,10 @@ PROPERTIES = {
             "quick": {"brackets_parsed": 800000, "messages_consumed_by_an_element": 100000, "timer_wakeup_brackets": 20000, "restart_stage_brackets": 5000,
                       "teardown_brackets": 20000, "messages_sent_from_hooks_received": 500000, "cases_with_global_and_module_stack": 5000,
                       "cases_with_stack_of_4": 2000, "cases_with_stack_of_0": 300, "teardowns_reporting_an_error": 2000,
-                      "cases_appending_a_longer_module_stack_at_once": 500},
+                      "cases_appending_a_longer_module_stack_at_once": 500, "cases_with_a_module_that_replaces_the_global_stack": 2000},
             "thorough": {"brackets_parsed": 16000000, "messages_consumed_by_an_element": 2000000, "timer_wakeup_brackets": 400000,
-                         "restart_stage_brackets": 100000, "cases_with_global_and_module_stack": 100000},
+                         "restart_stage_brackets": 100000, "cases_with_global_and_module_stack": 100000,
+                         "cases_with_a_module_that_replaces_the_global_stack": 40000},
         },
     },
     "C13": {
